@@ -1,9 +1,17 @@
 pub trait Logger {
     fn log(&self, message: impl Into<String>) {
+        #[cfg(rce_verif)]
+        let Some(message) = crate::verif_hooks::route_out(message.into()) else {
+            return;
+        };
         println!("{}", message.into());
     }
 
     fn elog(&self, message: impl Into<String>) {
+        #[cfg(rce_verif)]
+        let Some(message) = crate::verif_hooks::route_err(message.into()) else {
+            return;
+        };
         eprintln!("{}", message.into());
     }
 }
